@@ -54,7 +54,8 @@ class C11Bounded(Bounded):
                      ({"s1": {"a": 1}, "s2": {"c": 3}, "s3": {"e": 5}}, "(s1 and s2) or (s3 and not s2)"), ({"s1": {"a": 1}, "s2": {"c": 3}}, "(s1) or (s2)")]
         filt_dets = [({"sel": {"u": "adm"}}, "not sel"), ({"sel": {"u": "adm"}, "svc_proc": {"i": "x"}}, "not (sel or svc_proc)"), ({"f1": {"u": 1}, "f2": {"w": 2}}, "not 1 of them"),
                      ({"f_a": {"u": 1}, "f_b": {"w": 2}}, "not all of f_*"), ({"a_allow": {"u": 1}, "b_allow": {"w": 2}}, "not 1 of *_allow"), ({"2sel": {"u": 1}}, "not 2sel"),
-                     ({"_sel": {"u": 1}}, "not _sel"), ({"android": {"u": 1}}, "not android"), ({"sel": {"u": 1}}, "sel"), ({"f1": {"u": 1}, "f2": {"w": 2}}, "(not f1) or (not f2)")]
+                     ({"_sel": {"u": 1}}, "not _sel"), ({"android": {"u": 1}}, "not android"), ({"sel": {"u": 1}}, "sel"), ({"f1": {"u": 1}, "f2": {"w": 2}}, "(not f1) or (not f2)"),
+                     ({"f1": {"u": 1}, "f2": {"w": 2}}, "not 1 of *"), ({"allow_a": {"u": 1}, "al_x_ow_a": {"w": 2}, "alow_b": {"x": 3}}, "not 1 of al*ow_a"), ({"f1": {"u": 1}, "f2": {"w": 2}}, "not all of *")]
         logsources = [({"category": "c", "product": "p"}, {"category": "c"}), ({"category": "c", "product": "p"}, {"product": "p"}), ({"category": "c"}, {"category": "c", "product": "p"}),
                       ({"category": "c", "product": "p", "service": "s"}, {"category": "c", "product": "p", "service": "s"}), ({"category": "c"}, {"category": "d"})]
         targets = ["any", "byname", "byid", "byID_upper", "other"]
@@ -104,6 +105,34 @@ class C11Bounded(Bounded):
                 fail("query" + ("-" + known if known else ""), (known + " " if known and known.startswith("KNOWN") else "") + f"rule {rc!r} {sorted(rd)} with filter {fc!r} {sorted(fd)} ({tg}, logsources {rls}/{fls}, applies={applies}): {got} != {want}", [ri, fi, li, tg])
             elif len(samples) < 3 and applies and fi == 4:
                 samples.append({"rule": rc, "filter": fc, "query": got[0]})
+        # several filters at once, through every route a filter can reach a collection: constructor / from_dicts, and filters appended
+        # to the rules of an existing collection (applied when references are resolved)
+        from sigma.rule import SigmaRule
+        from sigma.filters import SigmaFilter
+        rdocs = [{"title": "r1", "name": "r1", "logsource": {"category": "c", "product": "p"}, "detection": {"sel": {"a": 1}, "condition": "sel"}},
+                 {"title": "r2", "name": "r2", "logsource": {"category": "c"}, "detection": {"sel": {"b": 2}, "condition": "sel"}},
+                 {"title": "r3", "name": "r3", "logsource": {"category": "d"}, "detection": {"sel": {"c": 3}, "condition": "sel"}}]
+        fdocs = [{"title": "f1", "logsource": {"category": "c"}, "filter": {"rules": "any", "x": {"u": "adm"}, "condition": "not x"}},
+                 {"title": "f2", "logsource": {"category": "c", "product": "p"}, "filter": {"rules": ["r1"], "y": {"v": "svc"}, "condition": "not y"}},
+                 {"title": "f3", "logsource": {"category": "d"}, "filter": {"rules": ["r3"], "z": {"w": "sys"}, "condition": "not z"}}]
+        for fperm in itertools.permutations(range(3)):
+            ev += 1
+            nontriv += 1
+            fl = [fdocs[i] for i in fperm]
+            try:
+                q_dicts = b().convert(SigmaCollection.from_dicts(copy.deepcopy(rdocs + fl)))
+                q_ctor = b().convert(SigmaCollection([SigmaRule.from_dict(copy.deepcopy(d)) for d in rdocs] + [SigmaFilter.from_dict(copy.deepcopy(d)) for d in fl]))
+                col = SigmaCollection([SigmaRule.from_dict(copy.deepcopy(d)) for d in rdocs])
+                col.rules.extend(SigmaFilter.from_dict(copy.deepcopy(d)) for d in fl)
+                q_append = b().convert(col)
+            except Exception as e:
+                fail("stacked-error", f"three filters in order {[f['title'] for f in fl]}: {type(e).__name__}: {e}", [list(fperm)])
+                continue
+            want = ['a=1 and not u="adm" and not v="svc"', 'b=2 and not u="adm"', 'c=3 and not w="sys"']
+            norm = lambda qs: [" and ".join(sorted(q.split(" and "))) for q in qs]
+            for route, got in (("from_dicts", q_dicts), ("constructor", q_ctor), ("filters appended to collection.rules", q_append)):
+                if norm(got) != norm(want):
+                    fail("stacked:" + route, f"three filters in order {[f['title'] for f in fl]} via {route}: {got}, expected each rule narrowed by exactly the filters that target it: {want}", [list(fperm), route])
         return {"evaluations": ev, "distinct_nontrivial": nontriv, "failures": fails, "failure_counts": seen,
-                "bound": f"{len(rule_dets)} rule shapes x {len(filt_dets)} filter shapes x {len(logsources)} log source relations x {len(targets)} rule-list forms" + (" (every third)" if tier == "quick" else ""),
+                "bound": f"all orders of three filters through three routes; {len(rule_dets)} rule shapes x {len(filt_dets)} filter shapes x {len(logsources)} log source relations x {len(targets)} rule-list forms" + (" (every third)" if tier == "quick" else ""),
                 "rule": "distinct (rule, filter, log sources, target); non-trivial = the filter applies", "samples": samples, "exhaustive": tier != "quick"}
